@@ -382,7 +382,7 @@ func (st *State) cutCall(kind, name string, args []Val, sig *types.Signature) Va
 	switch kind {
 	case "havoc":
 		return st.havocResult(sig, name)
-	case "uf", "ufok", "ufshrink":
+	case "uf", "ufok", "ufshrink", "ufidem":
 		// uninterpreted function of the (string-like) arguments ("ufok": error results are nil)
 		key := name
 		for _, a := range args {
@@ -398,7 +398,20 @@ func (st *State) cutCall(kind, name string, args []Val, sig *types.Signature) Va
 		if v, ok := st.ufCache[key]; ok {
 			return v
 		}
+		if kind == "ufidem" && len(args) == 1 {
+			// idempotent function: f(f(x)) = f(x)
+			if t, ok := args[0].(*Term); ok {
+				if _, isRes := st.ufCache["res:"+name+"|"+t.S]; isRes {
+					return t
+				}
+			}
+		}
 		v := st.havocResult2(sig, name, kind == "ufok")
+		if kind == "ufidem" {
+			if t, ok := v.(*Term); ok {
+				st.ufCache["res:"+name+"|"+t.S] = t
+			}
+		}
 		if kind == "ufshrink" {
 			// lemma (discharged separately for the real function): the result is never longer than the input
 			if bv, ok := v.(BytesVal); ok && len(args) == 1 {
